@@ -6,7 +6,7 @@ import warnings
 
 from .lena_sequence import LenaSequence
 from .sequence import Sequence
-from .exceptions import LenaTypeError
+from .exceptions import LenaKeyError, LenaTypeError
 from .functions import flow_to_iter
 
 
@@ -62,6 +62,13 @@ class Source(LenaSequence):
             # its initialisation would set the static context
             # of the other elements anew as if they were absent.
             self._tail = Sequence(*(el for el in args if el is not first))
+            # the tail was initialised without the first element,
+            # which can provide static context as well:
+            # set the static context of the elements again.
+            try:
+                self._set_context({})
+            except LenaKeyError:
+                pass
         else:
             self._tail = ()
 
